@@ -244,7 +244,7 @@ fn drive_writer(writer: &str, inp: &Input, spec: &str, sink: FaultSink, out: &mu
     if res.is_ok() {
         res = w.finish().map(|_| ());
     }
-    retry_after_error!(res, sink, out, "flush" => w.flush(), "finish#1" => w.finish(), "finish#2" => w.finish(), "into_inner" => w.into_inner());
+    retry_after_error!(res, sink, out, "finish#1" => w.finish(), "finish#2" => w.finish(), "into_inner" => w.into_inner());
     sink.mark_done();
     res
 }
@@ -252,7 +252,14 @@ fn drive_writer(writer: &str, inp: &Input, spec: &str, sink: FaultSink, out: &mu
 fn fault_free(writer: &str, spec: &str) -> (Arc<Vec<u8>>, Vec<String>) {
     let key = format!("ff {writer} {spec}");
     let tkey = format!("fft {writer} {spec}");
-    if let (Some(d), Some(t)) = (cache().lock().unwrap().get(&key).cloned(), cache().lock().unwrap().get(&tkey).cloned()) {
+    let hit = {
+        let c = cache().lock().unwrap();
+        match (c.get(&key), c.get(&tkey)) {
+            (Some(d), Some(t)) => Some((d.clone(), t.clone())),
+            _ => None,
+        }
+    };
+    if let Some((d, t)) = hit {
         return (d, String::from_utf8(t.as_ref().clone()).unwrap().split(',').map(|x| x.to_string()).collect());
     }
     let inp = input(spec);
@@ -581,14 +588,14 @@ fn gen_pqf(sink: &mut Sink, rng: &mut Rng) {
 
 fn gen_wfault(sink: &mut Sink, rng: &mut Rng, i: usize) {
     let writer = ["aw", "sfw", "awf"][i % 3];
-    // input classes, round-robin: small (all schemas, whole property grid); row groups > 8 KiB
+    // input classes (every writer meets every class): small (all schemas, whole property grid); row groups > 8 KiB
     // (the writer's internal buffer) with bloom filters in both positions; one file > 64 KiB
     let bloomy = [4usize, 5, 6, 7, 2];
-    let (spec, large) = match i % 6 {
+    let (spec, large) = match (i / 3) % 6 {
         0 | 1 => (format!("{}:{}", gen_spec(rng, &[0, 1, 2, 3, 4, 5, 6]), rng.usize(N_PROPS)), false),
         2 | 3 => (format!("{}:{}", gen_spec(rng, &[0, 1, 2, 3, 4, 5, 6]), bloomy[rng.usize(5)]), false),
         4 => (format!("1:{}:{}:{}:{}", 1 + rng.usize(2), 1100 + rng.usize(900), rng.usize(100000), bloomy[rng.usize(4)]), true),
-        _ => (format!("1:2:{}:{}:{}", 4200 + rng.usize(600), rng.usize(100000), [4usize, 5, 8, 0][(i / 6) % 4]), true),
+        _ => (format!("1:2:{}:{}:{}", 4200 + rng.usize(600), rng.usize(100000), [4usize, 5, 8, 0][(i / 18 + i) % 4]), true),
     };
     let (_, trace) = fault_free(writer, &spec);
     let scheds = if large { schedules_for_large(&trace) } else { schedules_for(&trace) };
